@@ -26,10 +26,16 @@ def leaf(kind, ids, rng=None, text_ws=False):
     if kind == "text":
         s = ids.next("t")
         if text_ws and rng is not None and rng.random() < 0.35:
-            s = rng.choice([s + "\nline2", "a b " + s, s + " ", " " + s, s + "\n", "\n" + s, ""])
-        return {"k": "text", "s": s}
+            s = rng.choice([s + "\nline2", "a b " + s, s + " ", " " + s, s + "\n", "\n" + s, "", s + " \t", s + "  "])
+        r = {"k": "text", "s": s}
+        if rng is not None and rng.random() < 0.08:
+            r["sub"] = True  # a str subclass is still a plain text child
+        return r
     if kind == "html":
-        return {"k": "html", "s": ids.next("h")}
+        r = {"k": "html", "s": ids.next("h")}
+        if rng is not None and rng.random() < 0.08:
+            r["sub"] = True
+        return r
     if kind == "obj":
         return {"k": "obj", "s": ids.next("o")}
     if kind == "meta":
@@ -40,10 +46,11 @@ def leaf(kind, ids, rng=None, text_ws=False):
 
 
 def node_of_kind(kind, ids, rng, children=()):
+    how = rng.choice(gen.HOWS) if rng.random() < 0.3 else "ctor"
     if kind == "block":
-        return gen.TAG(rng.choice(BLOCKS), *children, ws=True, via_fn=False, attrs=_attrs(rng, ids))
+        return gen.TAG(rng.choice(BLOCKS), *children, ws=True, via_fn=False, attrs=_attrs(rng, ids), how=how)
     if kind == "inline":
-        return gen.TAG(rng.choice(INLINES), *children, ws=False, via_fn=False, attrs=_attrs(rng, ids))
+        return gen.TAG(rng.choice(INLINES), *children, ws=False, via_fn=False, attrs=_attrs(rng, ids), how=how)
     if kind == "void_inline":
         return gen.TAG(rng.choice(VOID_INLINE), ws=False, via_fn=False, attrs=_attrs(rng, ids))
     if kind == "void_block":
@@ -73,6 +80,12 @@ def rand_layout_tree(rng, ids, depth, valid=True, inside_inline=False, max_child
         n = rng.choice([0, 1, 1, 2, 2, 3, 4, max_children])
         ii = inside_inline or kind == "inline"
         kids = [rand_layout_tree(rng, ids, depth - 1, valid, ii, max_children, text_ws, kinds_w) for _ in range(n)]
+        # occasionally the very same object appears twice among the siblings
+        tagkids = [k for k in kids if k["k"] == "tag"]
+        if tagkids and rng.random() < 0.08:
+            again = rng.choice(tagkids)
+            again.setdefault("share", ids.next("sh"))
+            kids.insert(rng.randint(0, len(kids)), again)
         return node_of_kind(kind, ids, rng, kids)
     if kind == "text":
         return leaf("text", ids, rng, text_ws)
